@@ -28,8 +28,9 @@
 
    The result cache keeps at most 1000 entries ([evict]).  Console output (silent=False), the results log
    (get_results_log) and the per-operation timeout_seconds are not modelled: the correspondence check runs
-   them as configurations / operations that must leave every observation below unchanged.  Recording
-   on_block / on_permit callbacks are observed through their call counts ([obs_row]).
+   them as configurations / operations that must leave every observation below unchanged.  The on_block /
+   on_permit callbacks are modelled ([hooks], [notify], [run_req_k], [kstep]; last part of the file): which are
+   installed, when they are called, and that an exception they raise leaves run() as it is.
 
    OVERLAPPING REQUESTS ([cop], [cstep], [ctrace]; second half of the file).  run() holds the lock only inside the
    breaker / cache methods, so a second request may be admitted while the first is still inside an agent.  A request
@@ -496,7 +497,124 @@ Definition obs_crow (cb : bool) (x : cop * cstate * option (bool * result)) : li
   | [] => []
   end.
 
-Definition case := (cfg * bool * list cop)%type.
+(* ---------------------------------------------------------------------- *)
+(* user callbacks (on_block / on_permit) that may RAISE                    *)
+
+(* run() hands the result of the gate to the caller's observer - on_block for a blocked result, on_permit for a
+   permitted one - as its last step but one (only the console output follows), OUTSIDE the try that guards the
+   agents: after the breaker was updated, the result cached and logged and total_blocked / total_permitted bumped.
+   The observer is not called for a refused request, a cache hit or an agent exception.  An exception raised by the
+   observer is not handled by run(): the caller of run() gets that exception instead of the LoopResult
+   ([Raised res]: [res] is the result the observer was handed).  [hooks]: which of the two callbacks were passed to
+   the constructor; [cbeh]: what the observer does if it is called during the operation. *)
+Inductive cbeh := CbReturns | CbRaises.
+Record hooks := mkHooks { h_block : bool; h_permit : bool }.
+Inductive reply := Returned (res : result) | Raised (res : result).
+
+Definition reply_result (p : reply) : result := match p with Returned r => r | Raised r => r end.
+Definition is_raised (p : reply) : bool := match p with Raised _ => true | Returned _ => false end.
+
+Definition hooked (k : hooks) (res : result) : bool := if r_blocked res then h_block k else h_permit k.
+
+Definition notify (k : hooks) (b : cbeh) (res : result) : reply :=
+  if hooked k res then match b with CbReturns => Returned res | CbRaises => Raised res end
+  else Returned res.
+
+Definition finish_y_k (c : cfg) (k : hooks) (b : cbeh) (s4 : state) (r : request) (z : zverdict) : state * reply :=
+  match yb r with
+  | Raises => let '(s', res) := fail_req c s4 in (s', Returned res)
+  | Returns y =>
+      let res := gate_result (glogic c) z y in
+      let s5 := set_br s4 (classify c (now s4) res (br s4)) in
+      let s6 := cache_store c s5 (prompt r) res in
+      (bump_outcome s6 (r_blocked res), notify k b res)
+  end.
+
+Definition finish_z_k (c : cfg) (k : hooks) (b : cbeh) (s3 : state) (r : request) : state * reply :=
+  match zb r with
+  | Raises => let '(s', res) := fail_req c s3 in (s', Returned res)
+  | Returns z => finish_y_k c k b (call_y c s3) r z
+  end.
+
+(* run() with the observers [k], whose invocation (if any) behaves as [b] *)
+Definition run_req_k (c : cfg) (k : hooks) (b : cbeh) (s0 : state) (r : request) : state * reply :=
+  match arrive c s0 r with
+  | (s1, Some res) => (s1, Returned res)
+  | (s2, None) => finish_z_k c k b (call_z c s2 (dur r)) r
+  end.
+
+Definition end_req_k (c : cfg) (k : hooks) (b : cbeh) (s : state) (f : flying) : state * reply :=
+  match f_place f with
+  | InZ => finish_z_k c k b (advance s (dur (f_req f))) (f_req f)
+  | InY =>
+      match zb (f_req f) with
+      | Returns z => finish_y_k c k b s (f_req f) z
+      | Raises => let '(s', res) := fail_req c s in (s', Returned res)
+      end
+  end.
+
+(* an operation of a history with observers: the operation and what the observer does if it is called during it
+   (for a request that was suspended that is the [End]; a [Begin] never gets as far as the observer) *)
+Definition kop := (cop * cbeh)%type.
+
+Definition kstep (c : cfg) (k : hooks) (cs : cstate) (o : kop) : cstate * option (bool * reply) :=
+  let '(s, fl) := cs in
+  match fst o with
+  | Seq (Run r) => let '(s', p) := run_req_k c k (snd o) s r in ((s', fl), Some (true, p))
+  | Seq o' =>
+      let '(s', r) := step c s o' in
+      ((s', fl), match r with Some x => Some (true, Returned x) | None => None end)
+  | Begin id r w =>
+      match begin_req c s r w with
+      | (s', Some res) => ((s', fl), Some (true, Returned res))
+      | (s', None) => ((s', mkFly id r w :: fl), None)
+      end
+  | End id =>
+      match fly_lookup id fl with
+      | Some f => let '(s', p) := end_req_k c k (snd o) s f in ((s', fly_remove id fl), Some (false, p))
+      | None => ((s, fl), None)
+      end
+  end.
+
+Fixpoint krun (c : cfg) (k : hooks) (cs : cstate) (ops : list kop) : cstate * list (bool * reply) :=
+  match ops with
+  | [] => (cs, [])
+  | o :: rest =>
+      let '(cs1, r) := kstep c k cs o in
+      let '(cs2, rs) := krun c k cs1 rest in
+      (cs2, match r with Some x => x :: rs | None => rs end)
+  end.
+
+Fixpoint ktrace (c : cfg) (k : hooks) (cs : cstate) (ops : list kop)
+  : list (kop * cstate * option (bool * reply)) :=
+  match ops with
+  | [] => []
+  | o :: rest => let '(cs1, r) := kstep c k cs o in (o, cs1, r) :: ktrace c k cs1 rest
+  end.
+
+(* the row of an operation: the code of the operation; 0 (no answer) / 1 (run() returned the result that follows)
+   / 2 (run() raised the observer's exception; the result the observer was handed follows); the breaker, the
+   counters, the clock; how often on_block / on_permit have been called so far (once per blocked / permitted answer
+   of the gate when installed, whether or not the call raised) *)
+Definition obs_krow (k : hooks) (x : kop * cstate * option (bool * reply)) : list Z :=
+  let '(o, cs, r) := x in
+  let s := fst cs in
+  let b := br s in
+  [cop_code (fst o)]
+  ++ match r with
+     | Some (_, p) =>
+         let res := reply_result p in
+         [if is_raised p then 2 else 1; b2z (r_success res); b2z (r_blocked res); action_code (r_action res);
+          b2z (r_cached res); exec_code (r_exec res)]
+     | None => [0; 0; 0; 0; 0; 0]
+     end
+  ++ [circ_code (circ b); fcount b; scount b] ++ oz (last_failure b) ++ oz (last_success b)
+  ++ [trips b; total_errors b; zcalls s; ycalls s; spent s;
+      total_requests s; total_blocked s; total_permitted s;
+      Z.of_nat (length (cache s)); now s;
+      if h_block k then total_blocked s else 0; if h_permit k then total_permitted s else 0].
+
+Definition case := (cfg * hooks * list kop)%type.
 
 Definition run_case (c : case) : list (list Z) :=
-  let '(cf, cb, ops) := c in map (obs_crow cb) (ctrace cf (init, []) ops).
+  let '(cf, k, ops) := c in map (obs_krow k) (ktrace cf k (init, []) ops).
